@@ -101,18 +101,12 @@ Proof. exact sortn_sorted. Qed.
 Print Assumptions C19_report_sorted.
 
 (* ---- non-vacuity ---- *)
-(* foo01-ib foo02-ib foo03-ib foo7-ib are in the domain and compress to foo[01-03,7]-ib *)
+(* foo01-ib foo7-ib foo03-ib foo02-ib are in the domain and compress to foo[01-03,7]-ib, which expands back *)
 Example C19_nonvacuous_header :
-  let h n := [102;111;111] ++ n ++ [45;105;98] in
-  let hosts := [h [48;49]; h [55]; h [48;51]; h [48;50]] in
-  host_set_ok hosts /\
-  compress [] hosts = [[102;111;111;91;48;49;45;48;51;44;55;93;45;105;98]] /\
-  targets (join 44 (compress [] hosts)) = Ok [h [48;49]; h [48;50]; h [48;51]; h [55]].
-Proof. cbv zeta. split; [|split; vm_compute; reflexivity].
-  split; [|split].
-  - repeat constructor; cbn; intuition discriminate.
-  - repeat constructor; try discriminate; try (cbn; lia); apply short_digit_runs; cbn; lia.
-  - cbn. lia. Qed.
+  host_set_ok ex_hosts /\
+  compress [] ex_hosts = [[102;111;111;91;48;49;45;48;51;44;55;93;45;105;98]] /\
+  targets (join 44 (compress [] ex_hosts)) = Ok [ex_h [48;49]; ex_h [48;50]; ex_h [48;51]; ex_h [55]].
+Proof. exact ex_header. Qed.
 
 (* padding twins and the 9/10 boundary: n9 n09 n10 n010 give n[09,9-10,010] (as the script prints),
    never a merged range that would expand to other names *)
@@ -121,17 +115,13 @@ Example C19_nonvacuous_twins :
   compress [] (sort_str [h [57]; h [48;57]; h [49;48]; h [48;49;48]]) =
     [[110;91;48;57;44;57;45;49;48;44;48;49;48;93]] /\
   targets [110;91;48;57;44;57;45;49;48;44;48;49;48;93] = Ok [h [48;57]; h [57]; h [49;48]; h [48;49;48]].
-Proof. split; vm_compute; reflexivity. Qed.
+Proof. exact ex_twins. Qed.
 
-(* a labelled stream with interleaving, a colon in the text, a junk line and an unterminated last line *)
+(* a labelled stream with interleaving, a colon in the text, blanks round a label, an empty line, a junk line
+   and an unterminated last line *)
 Example C19_nonvacuous_regroup :
-  let a := [97;49] in let b := [98;50] in
-  let items := [Lab (mkll [] a [] true [120;58;121]); Lab (mkll [32] b [32] true []); Junk [122];
-                Lab (mkll [] a [] false [119])] in
-  let last := Some (mkll [] b [] true [118]) in
-  Forall item_ok items /\ lline_ok (mkll [] b [] true [118]) /\
-  lines_of a (all_items items last) = [[120;58;121;10]; [119;10]] /\
-  lines_of b (all_items items last) = [[10]; [118;10]] /\
-  map b_body (blocks_normal [] (stream items last)) = [[[120;58;121;10]; [119;10]]; [[10]; [118;10]]].
-Proof. cbv zeta. repeat split; try (vm_compute; reflexivity);
-  repeat constructor; cbn; try discriminate; try tauto; intuition discriminate. Qed.
+  Forall item_ok ex_items /\ lline_ok ex_last /\
+  lines_of [97;49] (all_items ex_items (Some ex_last)) = [[120;58;121;10]; [119;10]] /\
+  lines_of [98;50] (all_items ex_items (Some ex_last)) = [[10]; [118;10]] /\
+  map b_body (blocks_normal [] (stream ex_items (Some ex_last))) = [[[120;58;121;10]; [119;10]]; [[10]; [118;10]]].
+Proof. exact ex_regroup. Qed.
